@@ -96,6 +96,8 @@ def run_property(prop: str, tier: str = "quick", seed: int = 0) -> int:
         traceback.print_exc()
         print(f"CHECKER-ERROR property={prop} cannot load contract module")
         return 3
+    import shutil
+    shutil.rmtree(os.path.join(REPLAY_DIR, prop), ignore_errors=True)
     ctx = Ctx(prop=prop, tier=tier, seed=seed, findings=load_findings(), procs=int(os.environ.get("HV_PROCS", "16")))
     extract.clear_cache()
 
